@@ -1,6 +1,8 @@
 import functools
 
+import pandas as pd
 from dask.dataframe.dispatch import make_meta, meta_nonempty
+from dask.utils import derived_from
 
 from dask_expr._accessor import Accessor, FunctionMap
 from dask_expr._expr import Blockwise
@@ -120,6 +122,30 @@ class StringAccessor(Accessor):
 
     def __getitem__(self, index):
         return self._function_map("__getitem__", index)
+
+    @derived_from(pd.Series.str)
+    def extractall(self, pat, flags=0):
+        from dask_expr import new_collection
+
+        return new_collection(
+            ExtractAll(
+                self._series,
+                self._accessor_name,
+                "extractall",
+                (pat,),
+                {"flags": flags},
+            )
+        )
+
+
+class ExtractAll(Blockwise):
+    # One row per match under a (label, match) MultiIndex: this is neither
+    # elementwise / length preserving nor sorted by the divisions of the frame
+    _parameters = FunctionMap._parameters
+    operation = staticmethod(FunctionMap.operation)
+
+    def _divisions(self):
+        return (None,) * (self.frame.npartitions + 1)
 
 
 class CatBlockwise(Blockwise):
